@@ -54,11 +54,13 @@ static bool brute(const std::vector<VarCfg>& vs, const std::vector<Con>& cs) {
 
 /** split >= 0: the solver object has a history - the first `split` constraints are added, solve() is called once (result discarded), then the rest is
  *  added and solve() is called again; the second answer must be that of the whole system. */
+static std::vector<int> prefPerVar;   // part "mixed": one value-ordering preference per variable (pref is then only a label)
 static int runSolver(const std::vector<VarCfg>& vs, const std::vector<Con>& cs, int pref, std::vector<int>& values, int split = -1) {
     std::ostringstream sink;
     CspSolver s(sink, true);
+    size_t vk = 0;
     for (auto& v : vs) {
-        int id = s.addVariable((CspSolver::PrefVal)pref, v.mn, v.mx);
+        int id = s.addVariable((CspSolver::PrefVal)(prefPerVar.empty() ? pref : prefPerVar[vk]), v.mn, v.mx); vk++;
         if (v.parity == 1) s.makeEven(id); if (v.parity == 2) s.makeOdd(id);
         if (v.tKind == 1) s.addMinVal(id, v.tVal); if (v.tKind == 2) s.addMaxVal(id, v.tVal);
     }
@@ -105,6 +107,33 @@ static void checkSystem(const std::vector<VarCfg>& vs, const std::vector<Con>& c
         }
     }
     if (R.samples.size() < 3 && nt && (id % 100003) == 7) R.sampleStr(sysStr(vs, cs, 0) + (sat ? " SAT" : " UNSAT"));
+}
+
+/** Every combination of per-variable value-ordering preferences (SMALL, LARGE, MIDDLE_SMALL, MIDDLE_LARGE) for one system: the preference must
+ *  never change the answer, only which solution is returned. */
+static void checkSystemMixed(const std::vector<VarCfg>& vs, const std::vector<Con>& cs) {
+    unsigned long long id = sysId++;
+    if (onlyId >= 0) { if ((long long)id != onlyId) return; }
+    else if (!W->mine(id)) return;
+    bool sat = brute(vs, cs);
+    R.count("states"); R.count("nontrivial"); R.count(sat ? "satisfiable" : "unsatisfiable");
+    int n = (int)vs.size(), combos = 1; for (int k = 0; k < n; k++) combos *= 4;
+    for (int pc = 0; pc < combos; pc++) {
+        prefPerVar.clear(); int label = 0; for (int k = 0, x = pc; k < n; k++, x /= 4) { prefPerVar.push_back(x % 4); label = label * 10 + x % 4; }
+        std::vector<int> values;
+        int r = runSolver(vs, cs, 1000 + label, values, -1);
+        R.count("transitions");
+        auto rep = [&]() { return "{\"kind\":\"input\",\"cpart\":\"" + curPart + "\",\"id\":" + std::to_string(id) + ",\"system\":\"" + jsonEsc(sysStr(vs, cs, 1000 + label)) + "\"}"; };
+        if ((r != 0) != sat) { R.violation(sat ? "solver-says-unsolvable-but-solution-exists" : "solver-says-solvable-but-none-exists", sysStr(vs, cs, 1000 + label) + " (pref = 1000 + one digit per variable, last variable first: 0 SMALL 1 LARGE 2 MIDDLE_SMALL 3 MIDDLE_LARGE)", rep()); continue; }
+        if (r) {
+            int val[3] = {0, 0, 0}; bool ok = values.size() == vs.size();
+            for (size_t k = 0; ok && k < vs.size(); k++) { val[k] = values[k]; if (!inDom(vs[k], val[k])) ok = false; }
+            if (ok) for (auto& c : cs) if (!conOk(c, val)) ok = false;
+            if (!ok) R.violation("returned-assignment-violates-constraints", sysStr(vs, cs, 1000 + label), rep());
+        }
+    }
+    prefPerVar.clear();
+    if (R.samples.size() < 3 && (id % 10007) == 7) R.sampleStr(sysStr(vs, cs, 0) + (sat ? " SAT" : " UNSAT") + " x 4^n preference combinations");
 }
 
 int main(int argc, char** argv) {
@@ -174,6 +203,19 @@ int main(int argc, char** argv) {
             for (int c1 : CC) for (int c2 : CC) for (int c3 : CC) {
                 checkSystem(vs, {Con{0, 0, 1, c1}, Con{1, 0, 2, c2}, Con{2, 0, 0, c3}});
                 checkSystem(vs, {Con{0, 2, 1, c1}, Con{1, 2, 2, c2}, Con{2, 1, 0, c3}});
+            }
+        } if (w.dl.hit()) { cut = true; break; } }
+    } else if (part == "mixed") {
+        // three variables, each with its own preference; two or three inequalities / equalities tying v1 and v2 to v0 (and to each other): the shape
+        // ExtProofKernel builds (pawn start ranks are MIDDLE_SMALL / MIDDLE_LARGE variables bounded by other variables)
+        std::vector<std::pair<int,int>> RM = {{0, 7}, {1, 6}, {2, 5}, {0, 3}};
+        if (thorough) { RM.push_back({1, 4}); RM.push_back({3, 6}); }
+        std::vector<int> CM = {-2, -1, 0, 1, 2};
+        for (auto& r0 : RM) { for (auto& r1 : RM) for (auto& r2 : RM) {
+            std::vector<VarCfg> vs = {VarCfg{r0.first, r0.second, 0, 0, 0}, VarCfg{r1.first, r1.second, 0, 0, 0}, VarCfg{r2.first, r2.second, 0, 0, 0}};
+            for (int op1 = 0; op1 < 3; op1++) for (int c1 : CM) for (int op2 = 0; op2 < 3; op2++) for (int c2 : CM) {
+                checkSystemMixed(vs, {Con{1, op1, 0, c1}, Con{2, op2, 0, c2}});
+                if (thorough || (c1 == c2)) for (int op3 = 0; op3 < 2; op3++) checkSystemMixed(vs, {Con{1, op1, 0, c1}, Con{2, op2, 0, c2}, Con{1, op3, 2, 0}});
             }
         } if (w.dl.hit()) { cut = true; break; } }
     } else return 2;
